@@ -1477,7 +1477,10 @@ private:
           if (dataCb)
             dataCb(s->id, iora::core::BufferView{nullptr, 0},
                    std::chrono::steady_clock::now());
-          break;
+          // A zero-length datagram is not end-of-stream: keep draining. With
+          // EPOLLET a datagram queued behind it would otherwise stay unread
+          // until the next arrival (readFromListener goes on as well).
+          continue;
         }
         if (errno == EAGAIN || errno == EWOULDBLOCK)
           break;
